@@ -5,7 +5,7 @@
 From Coq Require Import Lia ZifyBool Permutation.
 From Ctg Require Import Base Net Einsum Program BaseFacts NetFacts ProgramFacts TreeState TreeStateFacts TreeStateInv
                         TreeStatePre TreeStateMon TreeStateProg TreeStateValue TreeStateRec TreeStateRecipes
-                        TreeStateReady TreeStatePreproc TreeStateReady2 TreeStateTotals TreeStateDfs TreeStatePre2.
+                        TreeStateReady TreeStatePreproc TreeStateReady2 TreeStateTotals TreeStateDfs TreeStatePre2 TdotFacts TreeStateTdot.
 Open Scope nat_scope.
 
 Section Final.
@@ -169,6 +169,25 @@ Proof.
   apply (ready_core n HN Hout s1 pe nodes l r Hwf); try assumption.
   - apply (checked_trace2_QP tr (init_state n) (init_state_QP n HN) Hpre).
   - unfold s1. rewrite <- (rev_involutive tr). apply tail_PBe2; [rewrite rev_involutive; exact Hpre|exact Htail].
+Qed.
+
+(* the program actually executed (tensordot + transpose where can_dot, einsum elsewhere) *)
+Theorem final_history_exec tr pe nodes arr e0 :
+  wf_net_b n = true -> pre2_trace_b n tr (init_state n) = true -> tail_ok_b tr = true ->
+  let s1 := run n tr (init_state n) in
+  let s := extract_all n pe nodes s1 in
+  nodes_ok_b s1 nodes = true -> sorted_keys_b s = true -> err s = false -> complete_b n s = true ->
+  exists l r, tree_of (tfuel s) (children s) (seq 0 N) = Some (Node l r) /\
+    fst (srun_x n s arr e0 pe (Node l r)) = map (dim n) (filter (fun j => negb (memb j (removed (sliced s)))) (output n)) /\
+    forall e, agree_removed (sliced s) e0 e ->
+      snd (srun_x n s arr e0 pe (Node l r)) (map e (filter (fun j => negb (memb j (removed (sliced s)))) (output n)))
+      = einsum_spec n (sliced s) arr e.
+Proof.
+  intros Hwf Hpre Htail s1 s Hnodes Hsorted He Hc. destruct (complete_tree s Hc) as (l & r & Ht). exists l, r. split; [exact Ht|].
+  assert (HQ : QP n s1) by apply (checked_trace2_QP tr (init_state n) (init_state_QP n HN) Hpre).
+  assert (HP : PBe s1) by (unfold s1; rewrite <- (rev_involutive tr); apply tail_PBe2; [rewrite rev_involutive; exact Hpre|exact Htail]).
+  destruct (end_state_facts n HN Hout s1 pe nodes HQ HP Hnodes He) as (I3 & A3 & P3 & _ & Hpp & Hf).
+  apply (srun_x_correct n HN s I3 A3 P3 Hsorted Hf arr e0 pe l r He Hwf Hpp Ht).
 Qed.
 End Final.
 
